@@ -1,11 +1,17 @@
 (* Property C06 — AVX2 and AVX-512 kernels are observationally identical.
-   Partial by nature: the instruction sequences are modelled, not verified
-   (DESIGN.md §8).  What is proved on every run: both families read the same
-   data symbols or equal copies of them, and those constants mean what the
-   scalar stage-1 model assumes (classification of all 256 bytes, control
-   character test, tail masks).  The equality of the two instruction sequences
-   is decided by the kernel-, slice- and end-to-end correspondence runs. *)
-From SJ Require Import Model.Base Model.RefTables Model.Stage1 Tie.Stage1AsmTie.
+   Proved on the mask-level model of the kernels (Proofs/MaskModel.v: the
+   bit-parallel algorithm both families implement, on 64-bit masks — odd
+   backslash runs by add-with-carry, quote mask by carry-less multiplication,
+   finalize, NDJSON newlines, the TZCNT flatten loop; the AVX2 variant builds
+   every mask from two 32-bit halves): for EVERY 64-byte block and every
+   reachable carried state both families compute the same masks, which are
+   exactly what 64 steps of the scalar model compute, hence Parse with either
+   family is the modelled Parse.  Partial by nature: that each INSTRUCTION
+   computes its mask operation is modelled, not verified; tied by the asm data
+   obligations below and by comparing every intermediate mask of both real
+   kernel families with this model on every run. *)
+From SJ Require Import Model.Base Model.RefTables Model.Stage1 Model.Driver Tie.Stage1AsmTie
+     Proofs.MaskModel Proofs.MaskProofsBlock Proofs.MaskProofsAll Proofs.MaskProofsDriver Proofs.MaskFinal.
 Open Scope N_scope.
 
 Theorem C06_classification_tables_partial : class_diff = [].
@@ -19,4 +25,38 @@ Theorem C06_tail_masks_partial :
   forallb (fun b => b =? 32) gen.Tables.gen_asm_find_structural_bits_amd64_WHITESPACE = true /\
   length gen.Tables.gen_asm_find_structural_bits_amd64_WHITESPACE = 8%nat.
 Proof. exact tie_tail_masks. Qed.
+
+(* the mask kernels of one block = 64 steps of the scalar model, for every block
+   and every reachable carried state, Parse and ParseND *)
+Theorem C06_mask_block_refines_scalar : forall (nd : bool) (block : bytes) (k : kstate) (p : nat),
+  length block = 64%nat -> kstate_wf k ->
+  let '(k', m) := mask_block nd k (map b2n block) in
+  s1_run nd (abs_kstate k) p block [] = (abs_kstate k', flatten_bits p m) /\ kstate_wf k' /\ m < two64.
+Proof. exact mask_block_refines_s1_run. Qed.
+
+(* the two families compute the same masks on every block *)
+Theorem C06_avx2_block_eq_avx512_block : forall nd k B, length B = 64%nat ->
+  mask_block_avx2 nd k B = mask_block nd k B.
+Proof. exact avx2_block_eq_avx512_block. Qed.
+
+(* whole messages: the index buffers of either family are the scalar model's *)
+Theorem C06_buffers_eq_model : forall fam nd msg, mask_buffers_k fam nd msg = s1_buffers nd msg.
+Proof. exact mask_buffers_eq_s1_buffers. Qed.
+
+(* C06 on the model: same outcome — both fail, or both succeed with identical
+   tape and string buffer — for every input, Parse and ParseND, both string modes *)
+Theorem C06_kernel_families_observationally_identical : forall nd copy msg,
+  parse_message_k AVX512 nd copy msg = parse_message_k AVX2 nd copy msg.
+Proof. exact C06_families_agree. Qed.
+Theorem C06_either_family_is_the_modelled_parse : forall fam nd copy msg,
+  parse_message_k fam nd copy msg = parse_message nd copy msg.
+Proof. exact parse_with_kernels_eq_model. Qed.
+
+Definition C06_flatten_loop_correct := flatten_incremental_correct.
+Definition C06_slice_kernel_increments := slice_kernel_increments.
+Definition C06_odd_backslash_trick := odd_backslash_kernel.
+Definition C06_prefix_xor_by_clmul := prefix_xor_kernel.
+
 Print Assumptions C06_classification_tables_partial.
+Print Assumptions C06_kernel_families_observationally_identical.
+Print Assumptions C06_mask_block_refines_scalar.
